@@ -558,6 +558,18 @@ func (d *Driver) Next() Event {
 				accused = d.pick(d.P.Nodes)
 			}
 			return Event{Kind: k, Creator: creator, Provider: accused, Faults: fs}
+		case "Drain":
+			// a provider moves (nearly) all its money away: later pledges are taken as recorded debt
+			n := d.pick(d.P.Nodes)
+			bal := d.St.Bal[n]
+			keep := int64(d.R.Intn(4))
+			if bal <= keep+1 {
+				continue
+			}
+			return Event{Kind: "Send", Creator: n, Acc: "a12", Amount: bal - keep}
+		case "Refill":
+			n := d.pick(d.P.Nodes)
+			return Event{Kind: "Send", Creator: "a12", Acc: n, Amount: int64(1 + d.R.Intn(30))}
 		case "Ready":
 			var cands []POrder
 			for _, o := range d.St.Orders {
